@@ -269,7 +269,7 @@ def dense_branch(repo, run, fn, idx):
     ok = len(rets) == 1 and rets[0][1].get("t") == idx
     cex = None
     if ok:
-        tree, bt = path_condition(rets[0][0], fn)
+        tree, bt = path_condition(rets[0][0], fn, guards=True)      # guard clauses (`if not dense: return nearest`) contribute their negated tests
         # among the atoms of the path, those about dense output: the branch must be taken iff dense output is kept (and sol exists)
         atoms = [a for a in __import__("sa.sym", fromlist=["tree_atoms"]).tree_atoms(tree)]
         dense = [a for a in atoms if "__dense_output" in a]
